@@ -1,8 +1,10 @@
 import Proofs.Chunks
 import Proofs.LinkLists
+import Proofs.SizesGrowth
+import Proofs.SizesLinks
 /-! C19 — storage growth is exactly accounted for. Arithmetic core for every stem length; a new node
-    takes exactly `blocksFor stem` blocks; `n` link ends take exactly `n` stubs. The whole-history sum
-    needs "allocation only on missing stems" (Proofs/Shape*, in progress). -/
+    takes exactly `blocksFor stem` blocks; `n` link ends take exactly `n` stubs. The accounting invariant `SizeOk` is preserved by every insertion;
+    re-submission allocates nothing; the link store grows by two stubs per link (Proofs/Sizes*). -/
 namespace Traph.Props
 open Traph State
 
@@ -22,6 +24,40 @@ theorem C19_stubs (s : State) (hwf : LinksWf s) (tail : Nat) (ht : tail < s.link
     (s.addStubsGo tail targets).1.links.size = s.links.size + targets.length ∧
     (s.addStubsGo tail targets).1.trie = s.trie :=
   ⟨addStubsGo_size s hwf tail ht targets, addStubsGo_trie s hwf tail ht targets⟩
+
+/-! #### exact accounting over insertions -/
+
+/-- THE ACCOUNTING INVARIANT `SizeOk`: the trie store holds one header block plus, for every stored
+    stem-prefix, the blocks of its last stem — and nothing else (no unreferenced block). It holds initially and
+    every `add_lru` preserves it, together with the shape invariant -/
+theorem C19_trie (s : State) (t : T) (h : Shape s t) (hz : SizeOk s t) (stems : LRU) (hne : stems ≠ []) (flag : Bool) :
+    ∃ t', Grow stems s t (s.addLru stems flag).1 t' ∧ SizeOk (s.addLru stems flag).1 t' ∧
+      (stems, (s.addLru stems flag).2.1) ∈ t'.entries (s.addLru stems flag).1 [] := addLru_sizeOk h hz stems hne flag
+
+theorem C19_trie_init : SizeOk ({} : State) .nil := sizeOk_init
+
+/-- exact growth: an insertion allocates blocks for exactly the stem-prefixes that were not stored before
+    (the stored ones are the first `k`), `⌈len/74⌉` each -/
+theorem C19_growth {s : State} {t : T} (h : Shape s t) (stems : LRU) (hne : stems ≠ []) (flag : Bool) :
+    ∃ k, k ≤ stems.length ∧
+      (∀ j, 0 < j → j ≤ stems.length → ((∃ b, (stems.take j, b) ∈ t.entries s []) ↔ j ≤ k)) ∧
+      (s.addLru stems flag).1.trie.size = s.trie.size + ((stems.drop k).map blocksFor).sum :=
+  addLru_growth h stems hne flag
+
+/-- re-submitting a known prefix, page or anchor never grows the trie store and returns the same block -/
+theorem C19_idempotent {s : State} {t : T} (h : Shape s t) (stems : LRU) (hne : stems ≠ []) (flag : Bool) (b : Nat)
+    (hb : (stems, b) ∈ t.entries s []) :
+    (s.addLru stems flag).1.trie.size = s.trie.size ∧ (s.addLru stems flag).2.1 = b :=
+  addLru_known_no_growth h stems hne flag b hb
+
+theorem C19_idempotent_page {s : State} {t : T} (h : Shape s t) (stems : LRU) (hne : stems ≠ []) (crawled : Bool) (b : Nat)
+    (hb : (stems, b) ∈ t.entries s []) :
+    (s.addPageTrie stems crawled).1.trie.size = s.trie.size ∧ (s.addPageTrie stems crawled).2.1 = b :=
+  addPageTrie_known_no_growth h stems hne crawled b hb
+
+/-- the link store grows by exactly two stubs per submitted link, whatever else the request does -/
+theorem C19_links (s : State) (pairs : List (Bytes × Bytes)) (r : Report) (hok : (s.addLinks pairs).2 = .ok r) :
+    (s.addLinks pairs).1.links.size = s.links.size + 2 * pairs.length := addLinks_links_size s pairs r hok
 
 example : blocksFor (List.replicate 75 65) = 2 ∧ blocksFor (List.replicate 148 65) = 2 ∧ blocksFor (List.replicate 149 65) = 3 := by decide
 
